@@ -65,6 +65,13 @@ Theorem C17_pmap_schedule_independent_partial :
 Proof. exact @pmap_schedule_independent. Qed.
 Print Assumptions C17_pmap_schedule_independent_partial.
 
+(* the decidable test the correspondence applies to every OBSERVED completion order is sufficient *)
+Theorem C17_pmap_observed_order_partial :
+  forall (A B : Type) (f : A -> B) (sched : list nat) (xs : list A),
+  is_perm_of_seq sched (length xs) = true -> pmap sched f xs = map (fun x => Some (f x)) xs.
+Proof. intros A B f sched xs H. apply pmap_schedule_independent, is_perm_of_seq_sound, H. Qed.
+Print Assumptions C17_pmap_observed_order_partial.
+
 (* any number of workers, any task durations *)
 Theorem C17_pmap_pool_partial :
   forall (A B : Type) (f : A -> B) (w : nat) (delays : list Z) (xs : list A),
